@@ -130,8 +130,7 @@ def run(tier, seed):
                 unmatched.append(s)
         unmatched += [dict(n, kind='nondet-call', cls='nondet') for n in nondet]
 
-    seeds = [0, 1, 2, 3, 4, 5] if quick else list(range(0, 40)) + [41, 77, 123, 255, 256, 1000, 4242, 65535, 99991, 2 ** 31 - 1,
-                                                                  7, 11, 13, 17, 19, 23, 29, 31, 37, 43, 47, 53, 59, 61][:24]
+    seeds = [0, 1, 2, 3, 4, 5] if quick else list(range(0, 54)) + [77, 123, 255, 256, 1000, 4242, 65535, 99991, 2 ** 31 - 1, 2 ** 32 - 1]
     if proof_broken and quick:
         seeds = list(range(16))      # search harder for a concrete failing input
 
@@ -202,8 +201,11 @@ def run(tier, seed):
     bench = os.path.join(C.REPO, 'generation', 'mm-benchmarks')
     items += [{'t': 'mm', 'path': os.path.join(bench, 'impreflex-compressed-goal.mm'), 'target': 'goal'},
               {'t': 'mm', 'path': os.path.join(bench, 'impreflex-compressed.mm'), 'target': 'imp-reflexivity'}]
+    heavy = []
     if not quick:
-        items.append({'t': 'mm', 'path': os.path.join(bench, 'transfer-simple-compressed-goal.mm'), 'target': 'goal'})
+        # 39 KB benchmark: one translation (3 x binary+pretty, 2 MB of pretty text) takes ~100 s, so it is observed in fresh
+        # processes only (four hash seeds), not inside the per-seed sequences
+        heavy.append({'t': 'mm', 'path': os.path.join(bench, 'transfer-simple-compressed-goal.mm'), 'target': 'goal'})
     rmm = C.rng_for(seed, CID + ':mm')
     for i in range(8 if quick else 40):
         p = os.path.join(mmdir, f'gen{i}.mm')
@@ -234,7 +236,7 @@ def run(tier, seed):
         res_seq = dict(zip(seeds, ex.map(lambda hs: run_runner(seqs[hs], hs, os.path.join(scratch, f'seq{hs}')), seeds)))
     # (b) fresh subprocess per item (history-free), two seeds
     fresh_seeds = seeds[:2]
-    fresh_jobs = [(it, hs) for it in items for hs in fresh_seeds]
+    fresh_jobs = [(it, hs) for it in items for hs in fresh_seeds] + [(it, hs) for it in heavy for hs in seeds[:4]]
     with ThreadPoolExecutor(max_workers=C.NCPU) as ex:
         res_fresh = list(ex.map(lambda a: run_runner([a[1][0]], a[1][1], os.path.join(scratch, f'fr{a[0]}'))[0],
                                 list(enumerate(fresh_jobs))))
@@ -280,7 +282,7 @@ def run(tier, seed):
     for (it, hs), r in zip(fresh_jobs, res_fresh):
         obs.setdefault(key(it), []).append((f'seed={hs} fresh process', r))
     nobs = 0
-    for it in items:
+    for it in items + heavy:
         ol = obs[key(it)]
         ref_where, ref = ol[0]
         kind = it['t'] + (f':mandatory={it["mandatory"]}' if 'mandatory' in it else '')
